@@ -274,6 +274,9 @@ Definition merge_views (self base other : view) : option view :=
   let added := filter (fun h => negb (memc h (v_heads base))) (v_heads other) in
   let heads := v_heads self ++ added in
   let bm := merge_bookmarks (v_bookmarks self) (v_bookmarks base) (v_bookmarks other) in
+  (* [set_local_bookmark_target] makes every added id of a target a head (repo.rs:1796-1801) *)
+  let heads := heads ++ flat_map (fun kv => flat_map (fun a => match a with Some c => [c] | None => [] end)
+                                                     (evens_t (snd kv))) bm in
   let bm' := fold_right (fun kv acc => set_target (fst kv) (update_bookmark res (snd kv)) acc) [] bm in
   let wc' := map (fun kv => (fst kv, update_wc m res (snd kv))) wc in
   (* a recreated working-copy commit is a new head *)
@@ -473,13 +476,32 @@ Definition divergent_in (merged : view) (c : commit) : bool :=
   (2 <=? length (filter (fun x => N.eqb (change_of x) (change_of c) && negb (commit_eqb x c))
                         (ancs (v_heads merged))))%nat.
 
-(** D1: a commit removed on the line of some head must not re-appear (unless its change
-    became divergent). *)
+(** [rebase_descendants] deliberately leaves the descendants of a DIVERGENTLY rewritten commit
+    in place (it cannot choose a successor), so such a removed commit [d] - and with it its
+    ancestors - stays reachable.  [kept_in_place]: [c] is (an ancestor of) a visible removed
+    commit whose change at least two other visible commits carry. *)
+Definition kept_in_place (dag : list opnode) (heads : list nat) (merged : view) (c : commit) : bool :=
+  existsb (fun d => suffixb c d && divergent_in merged d
+                    && existsb (fun h' => removed_on_line dag h' d) heads)
+          (ancs (v_heads merged)).
+
+(** The add terms of a CONFLICTED bookmark are made visible by [set_local_bookmark_target]
+    whatever they are; merging conflicted targets can turn a stale negative term into an add. *)
+Definition under_conflicted_bookmark (merged : view) (c : commit) : bool :=
+  existsb (fun kv => (1 <? length (snd kv))%nat
+                     && existsb (fun a => match a with Some d => suffixb c d | None => false end)
+                                (evens_t (snd kv)))
+          (v_bookmarks merged).
+
+(** D1: a commit removed on the line of some head must not re-appear, except as (an ancestor
+    of) a divergently rewritten commit that is kept in place, or of a side of a conflicted
+    bookmark. *)
 Definition dag_removed_hidden (dag : list opnode) (heads : list nat) (merged : view) : bool :=
   forallb (fun h =>
      forallb (fun a =>
         forallb (fun c => visible (v_heads (view_at dag h)) c
-                          || negb (visible (v_heads merged) c) || divergent_in merged c)
+                          || negb (visible (v_heads merged) c) || kept_in_place dag heads merged c
+                          || under_conflicted_bookmark merged c)
                 (ancs (v_heads (view_at dag a))))
        (op_ancestors dag [h])) heads.
 
